@@ -55,14 +55,18 @@ func (c *consumer) run() {
 	c.chanIdx = map[*gomavlib.Channel]int{}
 	for {
 		if c.stopAt > 0 && len(c.events) >= c.stopAt {
+			c.e.mu.Lock()
 			c.stopped = true
+			c.e.mu.Unlock()
 			dsim.Record("consumer-stops", "", nil, int64(len(c.events)))
 			return
 		}
 		evt, ok := dsim.Recv2("events", n.Events())
 		dsim.EnsureReleased("consumer") // woken inside the receive: become the released task again
 		if !ok {
+			c.e.mu.Lock()
 			c.ended = true
+			c.e.mu.Unlock()
 			dsim.Record("evt-end", "", nil)
 			return
 		}
@@ -154,6 +158,13 @@ func (e *env) startConsumer(pace int, route bool) *consumer {
 	e.cons = c
 	dsim.Go("consumer", c.run)
 	return c
+}
+
+// state reports whether the consumer stopped by itself / saw the end of the event channel.
+func (c *consumer) state() (stopped, ended bool) {
+	c.e.mu.Lock()
+	defer c.e.mu.Unlock()
+	return c.stopped, c.ended
 }
 
 // snapshot copies the events observed so far.
